@@ -1,5 +1,10 @@
 package mon
 
+import (
+	"strconv"
+	"strings"
+)
+
 // Prop describes one property's monitor.
 type Prop struct {
 	ID          string
@@ -111,6 +116,17 @@ func init() {
 
 // ReplayC20 replays a C20 case.
 func ReplayC20(c *Ctx, entry, input string) {
+	if rest, ok := strings.CutPrefix(entry, "path="); ok {
+		q, err := strconv.QuotedPrefix(rest)
+		if err != nil {
+			return
+		}
+		path, _ := strconv.Unquote(q)
+		old := FilePath
+		FilePath = path
+		defer func() { FilePath = old }()
+		entry = strings.TrimPrefix(rest[len(q):], " ")
+	}
 	if entry == "position" {
 		if len(input) <= 200 {
 			CheckC20Text(c, input, allPairs(len(input)))
